@@ -82,7 +82,7 @@ def assemble(tpl_path, repo=REPO, drop_lines=()):
             kv = parse_kv(st[len('//@@ fn '):])
             spec = dict(file=kv['file'], impl=kv.get('impl', ''), fn=kv['name'], nth=kv.get('nth', 0),
                         rules=[r for r in kv.get('rules', '').split(',') if r], ret=kv.get('ret', 'r'),
-                        loops={}, loop_tails={}, sig_sub=[], ghost_args=[], ghost_params=[], closures={})
+                        loops={}, loop_tails={}, sig_sub=[], ghost_args=[], ghost_params=[], closures={}, derefs=[])
             section, buf = None, []
             i += 1
 
@@ -121,6 +121,9 @@ def assemble(tpl_path, repo=REPO, drop_lines=()):
                     section, buf = ('closure', int(re.match(r'//@@ closure (\d+)', st2).group(1))), []
                 elif st2.startswith('//@@ ghostparam '):
                     spec['ghost_params'].append(st2[len('//@@ ghostparam '):].strip())
+                elif st2.startswith('//@@ deref '):
+                    kv2 = parse_kv(st2[len('//@@ deref '):])
+                    spec['derefs'].append((kv2['var'], kv2['fields'].split(',')))
                 elif st2.startswith('//@@ ghostarg '):
                     kv2 = parse_kv(st2[len('//@@ ghostarg '):])
                     spec['ghost_args'].append((kv2['callee'].split(','), kv2['arg']))
